@@ -27,6 +27,7 @@
  * Byte arrays are read byte by byte by this (ASan-instrumented) file right after the call that
  * returned them and before the next call on that reader. */
 #include "common.h"
+#include "ropts.h"
 #include <carquet/carquet.h>
 #include "reader/reader_internal.h"
 #include "thrift/parquet_types.h"
@@ -350,6 +351,7 @@ static void drop_file(pfile_t* pf) { if (pf->path[0]) unlink(pf->path); free(pf-
 static carquet_reader_t* open_mode(int mode, const pfile_t* pf) {
     carquet_error_t err = CARQUET_ERROR_INIT;
     carquet_reader_options_t ro; carquet_reader_options_init(&ro);
+    h_vary_reader_options(&ro, pf->buf, pf->size);
     if (mode == 2) return carquet_reader_open_buffer(pf->buf, pf->size, &ro, &err);
     ro.use_mmap = (mode == 1);
     return carquet_reader_open(pf->path, &ro, &err);
